@@ -15,6 +15,7 @@ import (
 	"errors"
 	"fmt"
 	"io"
+	"math"
 	"net/http"
 	"net/http/httptest"
 	"reflect"
@@ -25,6 +26,7 @@ import (
 	"testing/synctest"
 	"time"
 
+	internaljson "github.com/modelcontextprotocol/go-sdk/internal/json"
 	"github.com/modelcontextprotocol/go-sdk/internal/jsonrpc2"
 	"github.com/modelcontextprotocol/go-sdk/internal/verifx"
 )
@@ -1112,6 +1114,67 @@ func c19InputRequired(cases *verifx.Cases) {
 	}
 }
 
+// c19AnyIntegers: integers in the members of protocol values whose Go type is `any` (progress
+// tokens, _meta values, structured content, elicitation content): encoding a
+// value, decoding it and encoding it again yields the same JSON, for integers over the int64 range.
+func c19AnyIntegers(cases *verifx.Cases) {
+	ints := []int64{0, 1, -1, 1 << 53, -(1 << 53), 1<<53 + 1, -(1<<53 + 1), math.MaxInt64, math.MinInt64}
+	type member struct {
+		name string
+		mk   func(n int64) (val any, fresh any)
+	}
+	members := []member{
+		{"ProgressNotificationParams.progressToken", func(n int64) (any, any) {
+			return &ProgressNotificationParams{ProgressToken: n, Progress: 1}, &ProgressNotificationParams{}
+		}},
+		{"CallToolParams._meta.progressToken", func(n int64) (any, any) {
+			// what the client sends and what the server decodes it into
+			p := &CallToolParams{Name: "t", Arguments: map[string]any{}}
+			p.SetProgressToken(n)
+			return p, &CallToolParamsRaw{}
+		}},
+		{"TextContent._meta value", func(n int64) (any, any) {
+			return &CallToolResult{Content: []Content{&TextContent{Text: "x", Meta: Meta{"n": n}}}}, &CallToolResult{}
+		}},
+		{"CallToolResult.structuredContent", func(n int64) (any, any) {
+			return &CallToolResult{Content: []Content{}, StructuredContent: map[string]any{"n": n}}, &CallToolResult{}
+		}},
+		{"ElicitResult.content", func(n int64) (any, any) {
+			return &ElicitResult{Action: "accept", Content: map[string]any{"n": n}}, &ElicitResult{}
+		}},
+	}
+	for _, m := range members {
+		for _, n := range ints {
+			idx, mine := cases.Next()
+			if !mine {
+				continue
+			}
+			desc := fmt.Sprintf("%s = %d", m.name, n)
+			val, fresh := m.mk(n)
+			first, err := json.Marshal(val)
+			if err == nil {
+				err = internaljson.Unmarshal(first, fresh)
+			}
+			var second []byte
+			if err == nil {
+				second, err = json.Marshal(fresh)
+			}
+			big := "within-2^53"
+			if n > 1<<53 || n < -(1<<53) {
+				big = "beyond-2^53"
+			}
+			switch {
+			case err != nil:
+				cases.Violate(idx, "c19 any-member roundtrip-error "+m.name, fmt.Sprintf("%v [%s]", err, desc), 2)
+			case !c19JSONEqual(first, second):
+				cases.Violate(idx, "c19 any-member integer-changed "+m.name, fmt.Sprintf("sent %s, after decoding and encoding again %s [%s]", first, second, desc), 2)
+			default:
+				cases.Record(idx, "any-member integer preserved "+big, 2, func() string { return desc })
+			}
+		}
+	}
+}
+
 func c19Fuzz(env *verifx.Env, res *verifx.Result, maxLen int) {
 	cases := env.NewCases(res, "all-byte-strings-no-panic")
 	cases.NoMark = true
@@ -1203,6 +1266,7 @@ func TestVerifC19(t *testing.T) {
 	c19WireRequired(cc)
 	c19CaseSensitivity(cc)
 	c19InputRequired(cc)
+	c19AnyIntegers(cc)
 	c19StructuredDecode(env.NewCases(res, "structured-documents-no-panic"))
 	c19Deep(env.NewCases(res, "deeply-nested-documents"))
 	c19Fuzz(env, res, env.Pick(5, 6))
